@@ -228,9 +228,82 @@ LARGE = {
 }
 
 
+# thin supercells: the period along some direction is not longer than the cluster range, so that clusters contain a
+# site together with its own periodic image (one supercell site listed more than once in an interaction) and the
+# periodic image of a fixed vacancy lies within the range of the vacancy clusters.  Nsites <= 8 unless noted.
+THIN = {
+    'fcc': [(np.diag([1, 2, 3]), 0.8, 3, 0.8), (np.diag([1, 1, 4]), 0.8, 3, 0.8), (np.diag([2, 2, 1]), 0.8, 3, 0.8),
+            (np.diag([2, 2, 2]), 1.5, 2, 0.8), (np.array([[1, 1, 0], [0, 2, 1], [0, 0, 2]]), 0.8, 3, 0.8), (np.diag([1, 2, 2]), 0.8, 4, 0.8),
+            (np.diag([1, 3, 3]), 0.8, 3, 0.8), (np.diag([1, 4, 5]), 0.8, 3, 0.8), (np.diag([3, 3, 2]), 1.5, 2, 0.8)],  # last three: 9, 20, 18 sites
+    'hcp': [(np.diag([1, 1, 2]), 1.01, 3, 1.01), (np.diag([2, 1, 2]), 1.01, 3, 1.01), (np.diag([1, 1, 1]), 1.01, 2, 1.01)],
+    'b2': [(np.diag([1, 2, 2]), 1.01, 3, 1.01), (np.diag([2, 1, 3]), 1.01, 3, 1.01), (np.diag([2, 2, 2]), 2.01, 2, 1.01),
+           (np.array([[1, 0, 0], [0, 2, 1], [0, 0, 3]]), 1.01, 3, 1.01)],
+    'b2mob': [(np.diag([1, 2, 2]), 1.01, 3, 1.01), (np.diag([2, 1, 1]), 1.01, 3, 1.01)],
+    'sc': [(np.diag([1, 2, 3]), 1.01, 3, 1.01), (np.diag([2, 2, 2]), 2.01, 2, 1.01), (np.diag([1, 1, 5]), 1.5, 3, 1.01)],
+    'bcc': [(np.diag([1, 2, 3]), 0.87, 3, 0.87), (np.diag([2, 2, 2]), 1.75, 2, 0.87)],
+    'chain': [(np.diag([2, 1, 1]), 2.01, 3, 1.01), (np.diag([3, 1, 1]), 3.01, 3, 1.01), (np.diag([4, 1, 1]), 4.01, 2, 2.01),
+              (np.diag([5, 1, 1]), 5.01, 3, 1.01)],
+    'chainspec': [(np.diag([2, 1, 1]), 2.01, 3, 1.01), (np.diag([3, 1, 1]), 3.01, 3, 1.01)],
+    'plane': [(np.diag([1, 4, 1]), 1.01, 3, 1.01), (np.diag([2, 3, 1]), 2.01, 3, 1.01)],
+    'tri': [(np.diag([1, 4, 1]), 1.01, 3, 1.01), (np.array([[2, 1, 0], [0, 2, 0], [0, 0, 1]]), 1.8, 3, 1.01)],
+    'honey': [(np.diag([1, 3, 1]), 1.01, 3, 0.6)],
+    'rocksalt': [(np.diag([1, 2, 3]), 0.75, 3, 0.75)],
+    'l12': [(np.diag([1, 1, 2]), 1.01, 2, 0.8)],
+    'diamond': [(np.diag([1, 2, 2]), 0.75, 3, 0.45)],
+}
+
+
+# mobile atoms per unit cell of the menu crystals (so that the parent process can size a workload without building it)
+MOBILE_PER_CELL = {'chain': 1, 'chain2': 2, 'chainspec': 1, 'ladder': 1, 'plane': 1, 'tri': 1, 'honey': 2, 'sc': 1, 'fcc': 1, 'bcc': 1,
+                   'hcp': 2, 'diamond': 2, 'b2': 1, 'b2mob': 2, 'rocksalt': 1, 'l12': 3, 'tet': 1}
+
+
+def menu_nsites(which, name, k):
+    return MOBILE_PER_CELL[name] * abs(int(round(np.linalg.det(np.array(_menus()[which][name][k][0], dtype=float)))))
+
+
+def _menus():
+    return {'small': SMALL, 'medium': MEDIUM, 'large': LARGE, 'thin': THIN}
+
+
 def menu(which):
-    d = {'small': SMALL, 'medium': MEDIUM, 'large': LARGE}[which]
+    d = _menus()[which]
     return [(name, k) for name in sorted(d) for k in range(len(d[name]))]
+
+
+def placement_stats(sup, clusterexp, sitemap=None):
+    """Geometry-only census of how the cluster placements (cluster x lattice translation modulo the supercell; vacancy
+    clusters seated on the supercell's vacancy) fit into the supercell:
+      'placements'      number of placements,
+      'self_wrapping'   placements in which two different cluster sites are the same supercell site,
+      'vacancy_image'   placements of vacancy clusters in which a site other than the cluster's vacancy site is the
+                        supercell's vacancy site (= a periodic image of the fixed vacancy within the cluster range),
+      'plain_on_vacancy' placements of ordinary clusters that contain the supercell's vacancy site,
+      'double_sites'    set of mobile site indices that occur more than once in one placement."""
+    sm = sitemap or SiteMap(sup)
+    trans = cell_translations(sup.superlatt)
+    out = {'placements': 0, 'self_wrapping': 0, 'vacancy_image': 0, 'plain_on_vacancy': 0, 'double_sites': set()}
+    vkey = None if sup.vacancy is None else (int(sup.vacancy), True)
+    for orbit in clusterexp:
+        for cl in orbit:
+            sites = list(cl.sites)
+            if cl.__vacancy__:
+                if sup.vacancy is None: continue
+                Rs = [R for R in trans if sm.index(R + sites[0].R, sites[0].ci) == vkey]
+            else:
+                Rs = trans
+            for R in Rs:
+                idx = [sm.index(R + s.R, s.ci) for s in sites]
+                out['placements'] += 1
+                if len(set(idx)) < len(idx):
+                    out['self_wrapping'] += 1
+                    out['double_sites'].update(n for (n, mob) in idx if mob and idx.count((n, mob)) > 1)
+                if vkey is not None:
+                    if cl.__vacancy__:
+                        if vkey in idx[1:]: out['vacancy_image'] += 1
+                    elif vkey in idx:
+                        out['plain_on_vacancy'] += 1
+    return out
 
 
 class Setup:
@@ -243,7 +316,7 @@ class Setup:
 
     def __init__(self, which, name, k, rng, const=True, kra='vector', zero_fraction=0.):
         from onsager import cluster
-        d = {'small': SMALL, 'medium': MEDIUM, 'large': LARGE}[which]
+        d = _menus()[which]
         self.name, self.k, self.which = name, k, which
         self.crys, self.chem, self.spectator = _crystals()[name]()
         self.superlatt, self.cutoff, self.order, self.jcut = d[name][k]
